@@ -131,9 +131,9 @@ class B:
     def call(self, n, args, style="bare"):
         return {"k": "call", "id": self.ids.next(), "n": n, "args": args, "style": style}
 
-    def dim(self, n, t, dims=None, shared=False, fix=0, extended=False):
+    def dim(self, n, t, dims=None, shared=False, fix=0, extended=False, ty=""):
         return {"k": "dim", "id": self.ids.next(), "n": n, "t": t, "dims": dims or [],
-                "shared": shared, "fix": fix, "extended": extended}
+                "shared": shared, "fix": fix, "extended": extended, "ty": ty}
 
     def const(self, n, t, e, suffixed=True):
         return {"k": "const", "id": self.ids.next(), "n": n, "t": t, "e": e, "suffixed": suffixed}
@@ -161,18 +161,23 @@ def rtest(lo, hi):
     return {"k": "range", "lo": lo, "hi": hi}
 
 
+def _params(params):
+    out = []
+    for p in params:
+        out.append({"n": p[0], "t": p[1], "ty": p[2] if len(p) > 2 else ""})
+    return out
+
+
 def sub(n, params, body, static=False):
-    return {"n": n, "kind": "sub", "t": "I", "static": static,
-            "params": [{"n": p, "t": t} for p, t in params], "body": body}
+    return {"n": n, "kind": "sub", "t": "I", "static": static, "params": _params(params), "body": body}
 
 
 def fun(n, t, params, body, static=False):
-    return {"n": n, "kind": "fun", "t": t, "static": static,
-            "params": [{"n": p, "t": t2} for p, t2 in params], "body": body}
+    return {"n": n, "kind": "fun", "t": t, "static": static, "params": _params(params), "body": body}
 
 
-def prog(main, subs=None):
-    return {"main": main, "subs": subs or []}
+def prog(main, subs=None, types=None):
+    return {"main": main, "subs": subs or [], "types": types or []}
 
 
 def walk_stmts(stmts):
@@ -203,3 +208,22 @@ def dlit(v):
     if isinstance(v, str):
         return {"k": "lit", "t": "$", "v": S(v)}
     return {"k": "lit", "t": "I" if -32768 <= v <= 32767 else "L", "v": v}
+
+
+def fld(base, f, t, fix=0, ty=""):
+    return {"k": "fld", "base": base, "f": f, "t": t, "fix": fix, "ty": ty}
+
+
+def bound(which, n, t, d=None):
+    return {"k": "bound", "which": which, "n": n, "t": t, "d": d if d is not None else lit("I", 1),
+            "nodim": d is None}
+
+
+def typedef(n, fields):
+    """fields: list of (name, t, ty, fix)"""
+    return {"n": n, "fields": [{"n": f[0], "t": f[1], "ty": f[2] if len(f) > 2 else "", "fix": f[3] if len(f) > 3 else 0}
+                               for f in fields]}
+
+
+def dimspec(lo, hi, nolo=False):
+    return {"lo": num(lo), "hi": num(hi), "nolo": nolo}
